@@ -209,13 +209,14 @@ def oracle_c06(fw, cfg, ops, res):
     starts = [i for i, o in enumerate(ops) if o[0] == "open" and any(p[0] == "lost" for p in ops[:i])
               and not _attached_before(ops, i)]
     bounds = [0] + starts + [len(ops)]
-    glob = {"created": {}, "how": {}, "reg_req": {}, "dupreg": set(), "completed_at": {},
+    glob = {"created": {}, "how": {}, "reg_req": {}, "dupreg": set(), "completed_at": {}, "rid": {}, "stale": set(), "life": 0,
             "sid0": any(o[0] == "welcome" and o[1] == 0 for o in ops)}
     v = []
     zombie = None
     for k in range(len(bounds) - 1):
         a, b = bounds[k], bounds[k + 1]
         if a == b: continue
+        glob["life"] = k
         vk = _oracle_life(fw, cfg, ops[a:b], trace[a:b], res, b == len(ops), glob, a)
         if zombie is not None:
             # an earlier life left a session id behind on the dead object (see _zombie_session_id): whatever goes wrong
@@ -234,9 +235,8 @@ def oracle_c06(fw, cfg, ops, res):
     return v
 
 
+STALE_KEY = "pending/record-of-previous-life-overwritten-after-rejoin"
 ZOMBIE_KEY = "asyncio-deferred-continuation/session-id-set-after-disconnect/next-life-cannot-join"
-# found in round 5 (lives), reported to the integrator, not triaged yet (see c04.split_untriaged)
-AWAITING_TRIAGE = {ZOMBIE_KEY: "welcome-then-loss-same-iteration-then-next-life"}
 
 
 def _zombie_session_id(fw, cfg, ops, trace):
@@ -307,6 +307,13 @@ def _oracle_life(fw, cfg, ops, trace, res, last, glob, offset):
             if e[0] == "apiret" and e[1] is not None and last_req is None:
                 how.setdefault(e[1], "no-request")
             if e[0] == "apiret" and e[1] is not None and last_req is not None:
+                # join() starts the request ids of the new session at 1 again but keeps the request tables: a record that
+                # survived the previous life (user's onDisconnect without the default sweep) is overwritten by the request
+                # of the new session that gets the same id
+                for j0, (k0, i0, l0) in glob["rid"].items():
+                    if (k0, i0) == (last_req[0], last_req[1]) and l0 < glob["life"] and j0 not in completed_at:
+                        glob["stale"].add(j0)
+                glob["rid"][e[1]] = (last_req[0], last_req[1], glob["life"])
                 how[e[1]] = ("reentrant-" if reent else "") + last_req[0]
                 if last_req[0] == "register":
                     reg_req[last_req[1]] = e[1]
@@ -381,7 +388,8 @@ def _oracle_life(fw, cfg, ops, trace, res, last, glob, offset):
         if fw == "tx" and cfg["leave_super"] and any(e[0] == "called" and e[1][0] == "leave" for e in evs):
             for j, at in created.items():
                 if at < i + offset and j not in completed_at:
-                    key = "pending/future-never-completed" if j in dupreg else f"pending/not-completed-by-onLeave/{how.get(j, '?')}"
+                    key = "pending/future-never-completed" if j in dupreg else STALE_KEY if j in glob["stale"] else \
+                        f"pending/not-completed-by-onLeave/{how.get(j, '?')}"
                     v.append((key, f"future {j} (created at op {at}) not completed when onLeave ran at op {i}"))
         if n == "lost":
             lost = True
@@ -416,7 +424,7 @@ def _oracle_life(fw, cfg, ops, trace, res, last, glob, offset):
             v.append(("pending/tables-not-empty-after-disconnect", f"tables {res['tables']} after transport loss"))
         for j, done in res["futures"].items():
             if not done:
-                key = "pending/future-never-completed" if int(j) in dupreg else \
+                key = "pending/future-never-completed" if int(j) in dupreg else STALE_KEY if int(j) in glob["stale"] else \
                     f"pending/still-pending-after-disconnect/{how.get(int(j), '?')}"
                 v.append((key, f"future {j} ({how.get(int(j), '?')}) still pending after the session and the transport are gone"))
     return v
@@ -565,7 +573,6 @@ def run(ck):
             ck.bump("oracle:" + key)
             if key not in found or len(it[2]) < len(found[key][1][2]):
                 found[key] = (text, it)
-    c04.split_untriaged(ck, found, AWAITING_TRIAGE)
     c04.report_findings(ck, found, oracle_c06, lambda fw: 1)
     bad = c04.model_compare(ck, "c06", items)
     ck.bump("model_compared", len(items))
